@@ -192,6 +192,8 @@ def _case(seed: int) -> Dict[str, Any]:
     from hv import gen, rt
 
     kw = dict(n_streams=2 + seed % 2, steps=seed % 3, p_zero_kernel=0.15, n_top=3, p_launch=0.8, overlap_streams=True)
+    if seed % 4 == 2:
+        kw.update(p_orphan_kernel=0.2, p_orphan_no_corr=0.8)  # device activities whose launch was not captured: no correlation id at all; they still run on the device
     if seed % 4 == 3:
         kw["p_frac_kernel_dur"] = 0.6  # whole-number timestamps, fractional kernel durations: nothing is rounded, the ratio is over the exact lengths
     per_rank = gen.gen_trace_set(seed, n_ranks=1 + seed % 2, **kw)
